@@ -6,7 +6,20 @@ pub mod util;
 pub mod val;
 
 use std::io::{BufRead, Write};
+use std::sync::atomic::{AtomicUsize, Ordering};
 use val::Val;
+
+/// Cases that ran into a harness-side watchdog so far (a deadlocked or livelocked crate).
+/// After `MAX_STUCK` of them the remaining cases are not run: `main_loop` answers `xskipped`
+/// (not a value; the check counts those cases as not run), so that a tree on which every
+/// case of a family hangs is reported in minutes instead of hours.
+pub static STUCK: AtomicUsize = AtomicUsize::new(0);
+pub const MAX_STUCK: usize = 3;
+
+/// to be called by a binary whose own watchdog gave up on a case
+pub fn note_stuck() {
+    STUCK.fetch_add(1, Ordering::SeqCst);
+}
 
 /// Standard main loop: parse each stdin line, call `f` under catch_unwind,
 /// print the result (a panic is reported as the byte string "panic").
@@ -29,6 +42,11 @@ pub fn main_loop(f: fn(&Val) -> Val) {
     for line in stdin.lock().lines() {
         let line = line.expect("stdin");
         if line.trim().is_empty() {
+            continue;
+        }
+        if STUCK.load(Ordering::SeqCst) >= MAX_STUCK {
+            writeln!(out, "xskipped").unwrap();
+            out.flush().unwrap();
             continue;
         }
         let case = val::parse(&line);
